@@ -123,7 +123,7 @@ Proof. intros ops s. exact (eok_view _ _ s (epaired_final ops)). Qed.
 Print Assumptions spec_edges_are_edge_records.
 
 (** *** the finding classes cover every deviation: a read (of any kind, at any point of any history) whose
-    class is 0 returns the specification's answer; a history in which no class 1..7 fires satisfies the
+    class is 0 returns the specification's answer; a history in which no class 1..6 fires satisfies the
     specification *)
 Theorem read_deviation_classified : forall ops s k,
   classify_read (final ops) (spec_final ops) s k = 0 ->
@@ -132,7 +132,7 @@ Proof. exact read_deviation_classified_l. Qed.
 Print Assumptions read_deviation_classified.
 
 Theorem snapshot_outside_K : forall ops,
-  (forall c, 1 <= c <= 7 -> c01_k c ops (mrun ops) = false) -> snapshot_ok ops (mrun ops) = true.
+  (forall c, 1 <= c <= 6 -> c01_k c ops (mrun ops) = false) -> snapshot_ok ops (mrun ops) = true.
 Proof. exact snapshot_outside_K_l. Qed.
 Print Assumptions snapshot_outside_K.
 
@@ -155,18 +155,26 @@ Print Assumptions k5_refuted.
 Theorem k6_refuted : exists ops, c01_k 6 ops (mrun ops) = true /\ snapshot_ok ops (mrun ops) = false.
 Proof. exists w_k6. exact k6_refuted_l. Qed.
 Print Assumptions k6_refuted.
-Theorem k7_refuted : exists ops, c01_k 7 ops (mrun ops) = true /\ snapshot_ok ops (mrun ops) = false.
-Proof. exists w_k7. exact (proj1 k7_refuted_l). Qed.
-Print Assumptions k7_refuted.
+(** C01-K7 (GrafeoDB::execute_cypher_with_params planned with a private transaction manager) is repaired by 752d5ee:
+    the witness violates the specification on the pre-repair model ([read_pre]) and satisfies it on the current one *)
+Theorem k7_pre_refuted : exists ops,
+  snapshot_ok ops (mrun_pre ops) = false /\ snapshot_ok ops (mrun ops) = true.
+Proof. exists w_k7. split; [exact (proj1 k7_pre_refuted_l)|exact (proj1 (proj2 k7_pre_refuted_l))]. Qed.
+Print Assumptions k7_pre_refuted.
+(** since the repair the call answers exactly like the label scan of a session that has no open transaction *)
+Theorem cypher_params_is_label_scan : forall st s l, sess st s = None ->
+  read st s (FreshLabelScan l) = read st s (LabelScan l).
+Proof. intros st s l H. unfold read, ctx. rewrite H. reflexivity. Qed.
+Print Assumptions cypher_params_is_label_scan.
 
 (** *** non-vacuity *)
 (** histories outside every class exist, with reads strictly inside another session's open transaction,
     a writer that creates nodes and commits / buffers triples and rolls back or commits *)
 Example nv_outside_K :
-  (forall c, 1 <= c <= 7 -> c01_k c w_clean_later_starter (mrun w_clean_later_starter) = false)
+  (forall c, 1 <= c <= 6 -> c01_k c w_clean_later_starter (mrun w_clean_later_starter) = false)
   /\ snapshot_ok w_clean_later_starter (mrun w_clean_later_starter) = true
-  /\ (forall c, 1 <= c <= 7 -> c01_k c w_clean_rdf (mrun w_clean_rdf) = false)
-  /\ (forall c, 1 <= c <= 7 -> c01_k c w_clean_expand (mrun w_clean_expand) = false).
+  /\ (forall c, 1 <= c <= 6 -> c01_k c w_clean_rdf (mrun w_clean_rdf) = false)
+  /\ (forall c, 1 <= c <= 6 -> c01_k c w_clean_expand (mrun w_clean_expand) = false).
 Proof.
   destruct clean_examples_l as [H1 [H2 [H3 H4]]]. destruct clean_expand_l as [H5 _].
   split; [intros c _; unfold c01_k; rewrite H1; reflexivity|].
